@@ -81,6 +81,18 @@ func (bs *sqlPartStore) PutPart(ctx context.Context, tx database.Tx, partId part
 		}
 		if err != nil {
 			if err == io.EOF {
+				if chunkIndex == 0 {
+					// An empty part still has to exist: without a chunk row GetPart
+					// would report ErrPartNotFound and GetPartIds would not list it.
+					emptyChunk := partContent.Entity{
+						Id:         ptrutils.ToPtr(partId),
+						ChunkIndex: 0,
+						Content:    []byte{},
+					}
+					if saveErr := bs.partContentRepository.SavePartContent(ctx, tx.SqlTx(), bs.partStoreId, &emptyChunk); saveErr != nil {
+						return saveErr
+					}
+				}
 				break
 			}
 			return err
